@@ -95,6 +95,8 @@ mut('C16-iterable-name-collides', (H + 'iterable_loader.py', "            while 
 mut('C07-load-keeps-previous-run', (P + 'load.py', "        # Running the same flow again starts from scratch\n        self.resource_descriptors = []\n        self.iterators = []\n", "        # Running the same flow again starts from scratch\n"))
 mut('C09-size-from-unused-handle', (P + 'dumpers/file_dumper.py', "        temp_file.seek(0, os.SEEK_END)\n        filesize = temp_file.tell()\n", "        filesize = temp_file.tell()\n"))
 mut('C09-existing-descriptor-kept', ('dataflows/processors/dumpers/to_path.py', "        hashed = self.add_filehash_to_path and self.resource_hash and os.path.basename(path) != 'datapackage.json'\n", "        hashed = self.add_filehash_to_path\n"))
+mut('C09-package-rowcount-across-runs', (P + 'dumpers/dumper_base.py', "        DumperBase.inc_attr(self.datapackage.descriptor, self.datapackage_rowcount, counter)\n",
+     "        self.total_rows = getattr(self, 'total_rows', 0) + counter\n        DumperBase.set_attr(self.datapackage.descriptor, self.datapackage_rowcount, self.total_rows)\n"))
 
 
 def main():
